@@ -142,6 +142,12 @@ m("C16-g", "C16", SCAN, "\tif delete_unconfirmed {\n\t\t// Unlock locked outputs
 m("C16-h", "C16", SCAN, "\t\tstatus: OutputStatus::Unspent,\n\t\theight: output.height,", "\t\tstatus: OutputStatus::Unconfirmed,\n\t\theight: output.height,", "C16.R1")
 m("C16-i", "C16", SCAN, "\t\tresult_vec.append(&mut identify_utxo_outputs(\n\t\t\tkeychain,\n\t\t\toutputs.clone(),\n\t\t\tstatus_send_channel,\n\t\t\tperc_complete as u8,\n\t\t)?);\n\n\t\tif highest_index <= last_retrieved_index {", "\t\tif highest_index <= last_retrieved_index {\n\t\t\tlast_retrieved_return_index = last_retrieved_index;\n\t\t\tbreak;\n\t\t}\n\t\tresult_vec.append(&mut identify_utxo_outputs(\n\t\t\tkeychain,\n\t\t\toutputs.clone(),\n\t\t\tstatus_send_channel,\n\t\t\tperc_complete as u8,\n\t\t)?);\n\n\t\tif highest_index <= last_retrieved_index {", "C16.R2")
 
+# ---- third wave (from second-round seeds)
+m("C02-g", "C02", "libwallet/src/slate.rs", "\t\tif fee > tx.fee() {", "\t\tif fee > tx.fee() + 1 {", "C02.R6")
+m("C06-e", "C06", "libwallet/src/internal/updater.rs", "\tbatch.save_tx_log_entry(tx, parent_key_id)?;\n\tbatch.commit()?;\n\tOk(())\n}\n\n/// Apply refreshed API output data to the wallet", "\tbatch.save_tx_log_entry(tx, parent_key_id)?;\n\tOk(())\n}\n\n/// Apply refreshed API output data to the wallet", "C06.R6")
+m("C12-f", "C12", "libwallet/src/api_impl/foreign.rs", "\t\t\tlet mut batch = w.batch(keychain_mask)?;\n\t\t\tbatch.delete_private_context(sl.id.as_bytes())?;\n\t\t\tbatch.commit()?;\n\t\t}\n\t\tsl.state = SlateState::Standard3;", "\t\t\tlet batch = w.batch(keychain_mask)?;\n\t\t\tbatch.commit()?;\n\t\t}\n\t\tsl.state = SlateState::Standard3;", "C12.R8")
+m("C16-j", "C16", "libwallet/src/internal/scan.rs", "\t\t\tkeys::set_acct_path(&mut **w, keychain_mask, &label, path)?;\n\t\t\tacct_index += 1;", "\t\t\tkeys::set_acct_path(&mut **w, keychain_mask, &label, path)?;\n\t\t\tacct_index += 0;", "C16.R5")
+
 
 def for_property(prop):
     return [x for x in M if x["property"] == prop]
